@@ -62,6 +62,23 @@ func runC18(c *caseWriter) (string, bool, map[string]int) {
 			identPrefix(c, v, "v")
 		}
 	}
+	// values that look like numbers or keywords (a fast path through strconv or a lookup table shows here):
+	// every byte before and after digits, signs, exponents, base prefixes, digit separators, special floats
+	for b := 0; b < 256; b++ {
+		s := string([]byte{byte(b)})
+		for _, v := range []string{s + "1", s + "12", "1" + s, "1" + s + "2", s + "0"} {
+			identConst(c, v)
+			identPrefix(c, "row", v)
+			identPrefix(c, "p", v)
+		}
+	}
+	for _, v := range []string{"+1", "-1", "+0", "-0", "+12", "1e3", "1E3", "1e+3", "0x1f", "0X1F", "0b1", "0o7", "1_000", "1.5", ".5", "5.", "+.5", "١٢", "１２", "true", "false", "nil", "null", "NaN", "nan", "Inf", "+Inf", "-inf", "Infinity",
+		"9223372036854775807", "9223372036854775808", "-9223372036854775808", "18446744073709551616", "00", "007", " 1", "1 ", "\t1", "1\n", "+", "++1", "+-1", "1+", "1-1"} {
+		identConst(c, v)
+		for _, p := range []string{"row", "a", "my-id", "x1"} {
+			identPrefix(c, p, v)
+		}
+	}
 	for _, m := range malformed {
 		for _, v := range []string{m, "a" + m, m + "a"} {
 			identConst(c, v)
@@ -84,5 +101,5 @@ func runC18(c *caseWriter) (string, bool, map[string]int) {
 		identConst(c, v)
 		identPrefix(c, pick(prefixes), v)
 	}
-	return "all strings of <= depth symbols over {a Z 5 - _ LF NUL SP U+00E9 U+0661 U+0301 0xFF} as value (x 9 prefixes), every single byte alone/leading/trailing/inner, malformed UTF-8 shapes, random valid bodies with hostile heads/tails; non-trivial = the constructor accepted (returned an Identifier)", true, map[string]int{"depth": depth}
+	return "number-like and keyword-like values (every byte before / after digits, signs, exponents, base prefixes, separators, special floats, 64-bit boundaries); all strings of <= depth symbols over {a Z 5 - _ LF NUL SP U+00E9 U+0661 U+0301 0xFF} as value (x 9 prefixes), every single byte alone/leading/trailing/inner, malformed UTF-8 shapes, random valid bodies with hostile heads/tails; non-trivial = the constructor accepted (returned an Identifier)", true, map[string]int{"depth": depth}
 }
